@@ -323,6 +323,15 @@ class CIPDriver:
                 return False
             return True
         except Exception as err:
+            # a connection on which no session could be registered is of no use: drop it, so that a later
+            # open() starts over instead of reporting an open connection and sending without a session
+            try:
+                if self._sock is not None:
+                    self._sock.close()
+            except Exception:
+                pass
+            self._sock = None
+            self._connection_opened = False
             raise CommError("failed to open a connection") from err
 
     def _register_session(self) -> Optional[int]:
